@@ -14,8 +14,8 @@ API (reusable by other properties, e.g. C12/C14)
   sim.do(ev) -> info                    executes exactly one event:
        ('recv', i)    worker i's real receiving thread (recv_incoming) handles the next message
        ('recv2', i)   only after sim.arm_deposit_gate(i): the receiving thread was parked INSIDE
-                      WorkerMailbox.deposit_result (num_results already incremented, value not yet stored);
-                      this event lets it finish the handler
+                      WorkerMailbox.deposit_result, between storing the value and counting it (whichever
+                      the code does first); this event lets it finish the handler
        ('main', i)    worker i's real main thread (_loop) runs from its current gate to the next
        ('server', i)  real server.handle_message for the next message from worker i; info['asg'] is
                       the assignment it made ([[worker, [positions in the batch]], ...])
@@ -169,8 +169,12 @@ class FakeCT:
 # ---------------------------------------------------------------------------
 class Gate:
     def __init__(self):
-        self.go = threading.Semaphore(0)
-        self.arrived = threading.Semaphore(0)
+        # two raw locks used as binary semaphores (strict alternation harness <-> thread): much cheaper
+        # than threading.Semaphore, the co-simulation is bound by these hand-offs
+        self.go = threading.Lock()
+        self.go.acquire()
+        self.arrived = threading.Lock()
+        self.arrived.acquire()
         self.label = None
         self.info = None
         self.passthrough = False
@@ -185,7 +189,10 @@ class Gate:
 
     def finish(self, label, info=None):          # worker side: thread ends
         self.label, self.info = label, info
-        self.arrived.release()
+        try:
+            self.arrived.release()
+        except RuntimeError:
+            pass
 
     def wait(self):                              # harness side
         """Wait for the thread to park.  A thread that is slow (loaded box) but moving is waited
@@ -337,19 +344,23 @@ def await_markers():
 
 
 def deposit_marker():
-    """Line of the statement of WorkerMailbox.deposit_result that stores the value (`if
-    self.expecting_single_result:`), i.e. AFTER `self.num_results += 1`; found through the ast."""
+    """WorkerMailbox.deposit_result both stores the value (`if self.expecting_single_result: ...`) and counts
+    it (`self.num_results += 1`).  Returns the line of whichever of the two statements comes LATER, so a
+    receiving thread parked there has done exactly one of them (found through the ast; -1 = shape changed,
+    the gate is then never reached)."""
     fn = wmod.WorkerMailbox.deposit_result
     src = textwrap.dedent(inspect.getsource(fn))
     first = fn.__code__.co_firstlineno
     node = ast.parse(src).body[0]
-    seen_inc = False
+    inc = store = None
     for st in node.body:
         if isinstance(st, ast.AugAssign) and isinstance(st.target, ast.Attribute) and st.target.attr == 'num_results':
-            seen_inc = True
-        if seen_inc and isinstance(st, ast.If) and isinstance(st.test, ast.Attribute) and st.test.attr == 'expecting_single_result':
-            return st.lineno + first - 1
-    return -1          # shape changed: the deposit gate is simply never reached
+            inc = st.lineno
+        if isinstance(st, ast.If) and isinstance(st.test, ast.Attribute) and st.test.attr == 'expecting_single_result':
+            store = st.lineno
+    if inc is None or store is None:
+        return -1
+    return max(inc, store) + first - 1
 
 
 class WorkerRig:
@@ -662,8 +673,11 @@ class Sim:
                 r.w._ready_task_ids.put(RuntimeAddress(-9, -9, -9))
             except Exception:
                 pass
-            r.gate.go.release()
-            r.rgate.go.release()
+            for g in (r.gate, r.rgate):
+                try:
+                    g.go.release()
+                except RuntimeError:
+                    pass
             _RIGS.pop(r.rthread, None)
         for r in self.workers:
             if r.main_thread is not None:
